@@ -90,6 +90,12 @@ func (sc *SchemaCache) schemaLocked(src protoreflect.MessageDescriptor) (RootSch
 	if placeholder.To.FullName() != placeholder.FullName() {
 		return nil, fmt.Errorf("schema %q has wrong name %q", placeholder.FullName(), placeholder.To.FullName())
 	}
+	// Everything this call registered is linked now, so the objects among it
+	// can be checked through all of their flatten levels. Schema rolls the call
+	// back on a clash, like on any other error.
+	if err := checkClientPropertyNames(sc.registered); err != nil {
+		return nil, err
+	}
 	return placeholder.To, nil
 }
 
